@@ -135,6 +135,24 @@ class Check:
         sys.exit(1 if self.violations else 0)
 
 
+def full_traceback(e):
+    return "".join(traceback.format_exception(type(e), e, e.__traceback__))
+
+
+def raised_inside_implementation(e):
+    """innermost frames (also of a worker process: multiprocessing attaches the remote traceback as text) lie in ceos_alos2 -- the package
+    under test, wherever it is checked out -- with no frame of /verif below the last ceos_alos2 frame"""
+    text = full_traceback(e)
+    cause = getattr(e, "__cause__", None)
+    if cause is not None and hasattr(cause, "tb"):
+        text = str(cause.tb)
+    frames = [ln.strip() for ln in text.splitlines() if ln.strip().startswith('File "')]
+    impl = [i for i, ln in enumerate(frames) if "/ceos_alos2/" in ln and "/ceos_alos2/tests/" not in ln]
+    if not impl:
+        return False
+    return not any(VERIF in ln or "/harness/" in ln or "/checks/" in ln for ln in frames[impl[-1] + 1:])
+
+
 def jsonable(x):
     if isinstance(x, dict):
         return {(k if isinstance(k, (str, int, float, bool)) or k is None else repr(k)): jsonable(v) for k, v in x.items()}
@@ -192,6 +210,11 @@ def main(fn, pid, level="model_checking"):
     except Exception as e:  # machinery failure: never a verdict
         traceback.print_exc()
         print(f"MACHINERY-FAILURE {pid}: {type(e).__name__}: {e}")
+        if chk is not None and not chk.violations and raised_inside_implementation(e):
+            # an exception that comes out of the implementation at a place where this check does not expect one (on the unchanged tree it
+            # never does): the implementation refused something the check considers well formed.  It is attributed only when the innermost
+            # frames belong to ceos_alos2 (or libraries it called) with no harness frame below them.
+            chk.violation("unexpected-exception-from-implementation", f"{type(e).__name__}: {str(e)[:300]}", {"traceback": full_traceback(e)[-4000:]})
         if chk is not None and chk.violations:
             # violations with replay files were already established before the machinery broke (typically BECAUSE the implementation
             # is broken in a way a later part of the check did not expect): they stand
